@@ -59,8 +59,18 @@ impl LocalizationAdapter for LRec {
     }
 }
 
+/// A port no other scenario of this process is given (a counter over a range below the ephemeral ports, so that neither another scenario
+/// nor one of the harness's own outgoing connections can take it between this check and the bind of the code under test).
 fn free_port() -> u16 {
-    std::net::TcpListener::bind("127.0.0.1:0").unwrap().local_addr().unwrap().port()
+    static NEXT: std::sync::atomic::AtomicU32 = std::sync::atomic::AtomicU32::new(0);
+    let base = 12000 + (std::process::id() % 97) * 150;
+    loop {
+        let k = NEXT.fetch_add(1, std::sync::atomic::Ordering::Relaxed);
+        let p = (base + k % 18000) as u16;
+        if std::net::TcpListener::bind(("127.0.0.1", p)).is_ok() {
+            return p;
+        }
+    }
 }
 
 struct Running {
@@ -68,6 +78,8 @@ struct Running {
     stop: CancellationToken,
     handle: tokio::task::JoinHandle<Result<(), String>>,
     seen: Arc<Mutex<Seen>>,
+    /// the listener was seen accepting on `port` (false: it never came up, e.g. the port was taken in between -- a harness error)
+    ok: bool,
 }
 
 async fn start(cfg: &Value, discover_delay_ms: u64) -> Running {
@@ -104,15 +116,21 @@ async fn start(cfg: &Value, discover_delay_ms: u64) -> Running {
         tokio::spawn(async move { l.listen(("127.0.0.1", port), st).await.map_err(|e| e.to_string()) })
     };
     // wait until the socket accepts
+    let mut ok = false;
     for _ in 0..200 {
+        if handle.is_finished() {
+            break;
+        }
         if probe(port) {
+            ok = true;
             break;
         }
         tokio::time::sleep(Duration::from_millis(10)).await;
     }
     // the probe connection above is a real connection for the listener: give it a moment to be dismissed
     tokio::time::sleep(Duration::from_millis(50)).await;
-    Running { port, stop, handle, seen }
+    let ok = ok && !handle.is_finished();
+    Running { port, stop, handle, seen, ok }
 }
 
 fn label_addr(l: &str) -> SocketAddr {
@@ -160,6 +178,9 @@ fn header_bytes(hdr: &str, src: SocketAddr, port: u16) -> Vec<u8> {
 // ---------------------------------------------------------------------------------------------
 async fn run_c15(sc: &Value) -> Value {
     let run = start(&sc["cfg"], 0).await;
+    if !run.ok {
+        return json!({"family": "C15", "harnessError": "the listener did not come up on its port"});
+    }
     // the readiness probe of `start` came from 127.0.0.1 without a header: with the limiter on and PROXY off it consumed
     // one admission of p1 -- the history accounts for it explicitly as connection 0
     let secret = sc["cfg"]["secret"].as_bool().unwrap_or(false);
@@ -329,6 +350,9 @@ async fn good_client(port: u16, proxied: bool, wait_ms: u64) -> (String, u64) {
 
 async fn run_c16(sc: &Value) -> Value {
     let run = start(&sc["cfg"], 0).await;
+    if !run.ok {
+        return json!({"family": "C16", "harnessError": "the listener did not come up on its port"});
+    }
     let proxied = sc["cfg"]["proxy"].as_str().unwrap_or("off") != "off";
     let mut parked = vec![];
     let mut floods: Vec<tokio::task::JoinHandle<()>> = vec![];
@@ -456,6 +480,9 @@ async fn run_c16(sc: &Value) -> Value {
 async fn run_c17(sc: &Value) -> Value {
     let delay = sc["discoverDelayMs"].as_u64().unwrap_or(1200);
     let run = start(&sc["cfg"], delay).await;
+    if !run.ok {
+        return json!({"family": "C17", "harnessError": "the listener did not come up on its port"});
+    }
     let t0 = Instant::now();
     let port = run.port;
     let timeout_ms = sc["cfg"]["timeoutMs"].as_u64().unwrap_or(3000);
@@ -568,6 +595,9 @@ impl<S: tracing::Subscriber + for<'a> tracing_subscriber::registry::LookupSpan<'
 // ---------------------------------------------------------------------------------------------
 async fn run_c15race(sc: &Value) -> Value {
     let run = start(&sc["cfg"], 0).await;
+    if !run.ok {
+        return json!({"family": "C15race", "harnessError": "the listener did not come up on its port"});
+    }
     let n = sc["n"].as_u64().unwrap_or(4);
     let port = run.port;
     let mut hs = vec![];
